@@ -174,28 +174,46 @@ class Program:
         return self._reified
 
     def callgraph(self):
+        """resolved call graph.  Higher-order helpers (functions that call a generic `F: Fn*` parameter, e.g.
+        parse_binary_ops) are inlined one level: the caller gets the edge to the callable it passes, the helper
+        itself gets none, which keeps the levels of the expression grammar apart."""
         if self._callgraph is not None:
             return self._callgraph
         g = defaultdict(set)
+        helpers = {}   # fid -> set(param indices called)
+        for f in self.real_fns():
+            for bi, t in f.calls():
+                if t.get("resolved") is None and t.get("callee") in ("std::ops::Fn::call", "std::ops::FnMut::call_mut", "std::ops::FnOnce::call_once") and t["args"]:
+                    o = peel(f.origin_op(t["args"][0]))
+                    if o[0] == "param":
+                        helpers.setdefault(f.id, set()).add(o[1])
         for f in self.real_fns():
             for bi, b in enumerate(f.blocks):
                 if b["cleanup"]:
                     continue
                 t = b["term"]
                 if t["k"] == "call":
-                    tg, _ = self.call_targets(f, t)
-                    for x in tg:
-                        g[f.id].add(x)
-                    # closures passed as arguments to external higher-order fns (map, for_each..)
-                    for a in t["args"]:
-                        ty = None
-                    # function items passed as values
+                    if t.get("resolved") is None and f.id in helpers and t.get("callee") in ("std::ops::Fn::call", "std::ops::FnMut::call_mut", "std::ops::FnOnce::call_once"):
+                        pass   # inlined into the callers below
+                    else:
+                        tg, _ = self.call_targets(f, t)
+                        for x in tg:
+                            g[f.id].add(x)
+                            if x in helpers:
+                                for pi in helpers[x]:
+                                    if pi - 1 < len(t["args"]):
+                                        a = t["args"][pi - 1]
+                                        if "fn" in a and a["fn"] in self.fns:
+                                            g[f.id].add(a["fn"])
+                                        else:
+                                            c = closure_of_origin(f.origin_op(a))
+                                            if c and c in self.fns:
+                                                g[f.id].add(c)
                 for st in b["stmts"]:
                     if st["k"] == "assign" and st["rv"]["k"] == "agg" and st["rv"].get("agg") == "closure":
                         g[f.id].add(st["rv"]["closure"])
-                # fn item constants used as operands (passed as callbacks)
                 for op in block_operands(b):
-                    if "fn" in op and op["fn"] in self.fns and not (t["k"] == "call" and False):
+                    if "fn" in op and op["fn"] in self.fns:
                         g[f.id].add(op["fn"])
         self._callgraph = g
         return g
